@@ -203,7 +203,21 @@ func (g *leafGen) leaf() *node {
 		return noTrailingBackslash(fw.Pick(r, append(other, "zzz", "Bob", "x y", `a"b`, "(x)", "OR")))
 	}
 	for {
-		switch r.Weighted([]int{14, 6, 8, 12, 14, 12, 12, 6, 8, 8}) {
+		switch r.Weighted([]int{14, 6, 8, 12, 14, 12, 12, 6, 8, 8, 12}) {
+		case 10:
+			// any operator on any property with any kind of value: mostly rejected by the validator
+			// (counted, not judged); whatever it lets through must still evaluate without panicking
+			pt, key := "attr", fw.Pick(r, attrNames)
+			switch r.Intn(3) {
+			case 0:
+				pt, key = "field", fw.Pick(r, fieldSpecs).Key
+			case 1:
+				pt, key = "urn", fw.Pick(r, schemeNames)
+			}
+			y, mo, d := g.day()
+			val := fw.Pick(r, []string{"", "x", "Bob", "abc", "1", "0.5", "-1", "1e3", "eng", "active", "Testers", "Registration", g.dayText(y, mo, d), "2020-02-30", "12", "ab", "+12065551212", "日本語", "a b"})
+			g.k.res.Count("leaf.unrestricted_attempts", 1)
+			return cond(pt, key, fw.Pick(r, []string{"=", "!=", "~", ">", ">=", "<", "<="}), val)
 		case 0: // name
 			own := []string{}
 			if m.Name != "" {
@@ -585,7 +599,7 @@ func (k *chk15) checkNumber(r *fw.Rand, t target, pt, key string, v decimal.Deci
 	if v.IsInteger() && v.Abs().LessThan(decimal.New(1, 9)) {
 		xs = append(xs, v.String()+"e0", v.String()+".000")
 	}
-	fw.Shuffle(r, xs)
+	fw.Shuffle(r, xs[1:]) // the equal case is always among the five
 	for _, x := range xs[:5] {
 		o, ok := k.sixWay(t, prop, x)
 		if !ok {
